@@ -156,6 +156,88 @@ pub proof fn lemma_cast_limit(m: i32)
 //@tags
 
 // ======================================================================================
+// src/api/publisher.rs: the Publish handler (async fn, whole body): request -> parse -> lookup -> topic handle -> ids
+//@item src/topics/topic_actor.rs struct PublishMessagesResponse
+pub mod publisher {
+    use super::*;
+    broadcast use {vstd::std_specs::hash::group_hash_axioms, enc_ax::display_u64_injective, enc_ax::axiom_string_key_model, string_conv_ax::to_string_ensures_for_string, vstd::std_specs::iter::group_iter_axioms};
+//@item src/topics/errors.rs enum PublishMessagesError drop-derive=thiserror::Error strip-attr=error
+//@item src/topics/errors.rs enum GetTopicError drop-derive=thiserror::Error,PartialEq strip-attr=error
+    // ---- TRUSTED (A-STUB): tonic's Request / Response wrappers, the tracing span, the prost request / response structs
+    pub struct Request<T> { pub m: T }
+    impl<T> Request<T> { pub fn get_ref(&self) -> (r: &T) ensures *r == self.m { &self.m } }
+    pub struct Response<T> { pub m: T }
+    impl<T> Response<T> { pub fn new(m: T) -> (r: Self) ensures r.m == m { Response { m } } }
+    pub struct ActivitySpan { pub x: u8 }
+    impl ActivitySpan { pub fn start() -> Self { ActivitySpan { x: 0 } } }
+    pub struct PublishRequest { pub topic: String, pub messages: Vec<PubsubMessage> }
+    pub struct PublishResponse { pub message_ids: Vec<String> }
+    pub struct TopicName { pub x: u64 }
+    pub struct Topic { pub x: u64 }
+    pub mod glue {
+        use super::*;
+        /// the topic name a string parses to (TopicName::try_parse, proved in bundle B3)
+        pub uninterp spec fn parsed_name(s: Seq<char>) -> Option<TopicName>;
+        /// the manager's lookup (map operations proved in bundle B4, NOT_FOUND mapping in bundle B6)
+        pub uninterp spec fn lookup(s: PublisherService, name: TopicName) -> Result<Arc<Topic>, GetTopicError>;
+        /// one `Topic::publish_messages(messages)` call on the handle was answered with these ids (decided by the actor)
+        pub uninterp spec fn accepted(t: Topic, ms: Seq<TopicMessage>, ids: Seq<MessageId>) -> bool;
+    }
+    pub use glue::{parsed_name, lookup, accepted};
+    pub mod parser {
+        use super::*;
+        pub(crate) use super::super::parse_topic_message;
+        // assumed here, proved in bundles B2 / B3: INVALID_ARGUMENT exactly when the name does not parse
+        #[verifier::external_body]
+        pub fn parse_topic_name(raw_value: &str) -> (r: Result<TopicName, Status>)
+            ensures (match parsed_name(raw_value@) { Some(n) => r == Ok::<TopicName, Status>(n), None => err_code(r) == Some(Code::InvalidArgument) })
+        { unimplemented!() }
+    }
+    impl Topic {
+        /// TRUSTED (A-GLUE): the handle forwards to the topic actor; "one id per message" is the contract proved for the
+        /// id-assignment region of TopicActor::publish_messages in bundle B4
+        #[verifier::external_body]
+        pub async fn publish_messages(&self, messages: Vec<TopicMessage>) -> (r: Result<PublishMessagesResponse, PublishMessagesError>)
+            ensures (match r { Ok(resp) => accepted(*self, messages@, resp.message_ids@) && resp.message_ids@.len() == messages@.len(), Err(_) => true })
+        { unimplemented!() }
+    }
+    pub struct PublisherService { pub x: u64 }
+//@fn src/api/publisher.rs conflict tags=C10
+//@ ret r
+//@ ensures r.code == Code::FailedPrecondition
+//@end
+//@fn src/api/publisher.rs topic_not_found tags=C10
+//@ ret r
+//@ ensures r.code == Code::NotFound
+//@end
+    /// C09: what the topic is handed for a request message: exactly its data bytes and attributes
+    pub open spec fn carries(m: TopicMessage, p: PubsubMessage) -> bool { m.data@ == p.data@ && attrs_of(m) == p.attributes@ }
+    impl PublisherService {
+        // assumed here, proved in bundle B6 against the same contract
+        #[verifier::external_body]
+        pub async fn get_topic_internal(&self, topic_name: &TopicName) -> (r: Result<Arc<Topic>, Status>)
+            ensures (match lookup(*self, *topic_name) { Ok(t) => r == Ok::<Arc<Topic>, Status>(t), Err(GetTopicError::DoesNotExist) => err_code(r) == Some(Code::NotFound), Err(GetTopicError::Closed) => err_code(r) == Some(Code::Internal) })
+        { unimplemented!() }
+
+//@fn src/api/publisher.rs PublisherService::publish tags=C08
+//@ ret r
+//@ # C17 / C18: a topic name that does not parse is INVALID_ARGUMENT; C10: an absent topic is NOT_FOUND
+//@ ensures[C17] parsed_name(request.m.topic@).is_none() ==> err_code(r) == Some(Code::InvalidArgument)
+//@ ensures[C10] (match parsed_name(request.m.topic@) { Some(n) => (lookup(*self, n) matches Err(GetTopicError::DoesNotExist)) ==> err_code(r) == Some(Code::NotFound), None => true })
+//@ # C08: exactly one message id per submitted message ...
+//@ ensures[C08] (match r { Ok(resp) => resp.m.message_ids@.len() == request.m.messages@.len(), Err(_) => true })
+//@ # C08 / C09: ... the topic was handed every message of the request, in request order, with exactly its data and
+//@ # attributes, and the response carries the text of the ids the topic answered with, in that order
+//@ ensures[C09] (match r { Ok(resp) => exists|t: Topic, ms: Seq<TopicMessage>, ids: Seq<MessageId>| #[trigger] accepted(t, ms, ids) && ms.len() == request.m.messages@.len() && ids.len() == ms.len() && (forall|i: int| #![trigger ms[i]] 0 <= i < ms.len() ==> carries(ms[i], request.m.messages@[i])) && (forall|i: int| #![trigger ids[i]] 0 <= i < ids.len() ==> resp.m.message_ids@[i]@ == display_u64(ids[i].value)), Err(_) => true })
+//@ closure 1 ret st: Status
+//@ closure 1 ensures (match $1 { PublishMessagesError::TopicDoesNotExist => st.code == Code::NotFound, PublishMessagesError::Closed => st.code == Code::FailedPrecondition })
+//@ closure 2 ret s: String
+//@ closure 2 ensures s@ == display_u64($1.value)
+//@end
+    }
+}
+
+// ======================================================================================
 // src/push/push_loop.rs: HTTP push payload (region of encode_message_payload up to the serde_json call)
 // TRUSTED (A-LIB): the four stock engines of the base64 crate; `b64` is the STANDARD alphabet with padding (the one
 // Pub/Sub's JSON push format uses), the other three are modelled as different, unconstrained encodings
